@@ -80,11 +80,11 @@ CHECKS = {
         note=NOTE_COMMON + "OPEN FINDING strain-voigt-shear-doubled (KNOWN_FINDINGS.txt): the baseline test test_pure_shear pins the doubled shear, so it cannot be repaired; energy_identity is therefore _partial (shear-free fields)."),
     "C14": dict(
         text="Lean theorems: direction-string table (all 30 intended forms, all 585 short strings, general characterisation); for every grid/direction/nsampling the base layer is unchanged and every other element is "
-             "smin(x_i, smax(supports in domain)); over R: overshoot <= sqrt(eps)/2, supported solid stays >= 1, unsupported material bound; mirror and in-layer axis-swap equivariance by induction over layers; "
+             "smin(x_i, smax(supports in domain)); over R: overshoot <= sqrt(eps)/2, supported solid stays >= 1, unsupported material bound; mirror and axis-permutation equivariance (in-layer and cross-axis, every permutation) by induction over layers; "
              "sensitivity loop structure and the three scalar derivative atoms. Float model with bit-exact transport vs the real filter (direction attribute exact, outputs and sensitivities to tolerance); "
              "independent layer-by-layer oracle and symmetry pairs on the real code.",
         ref="§5 C14", technique="Lean 4 proof (decide tables, induction over layers, real analysis atoms) + Float-model correspondence + recomputation oracle",
-        note=NOTE_COMMON + "overhang_sens_is_backprop: the coded reverse loop returns J^T seed of the layer recursion, and overhang_response_hasDerivAt makes J the genuine derivative over R (eps > 0); the older _partial statement is kept beside it. PARTIAL: cross-axis swap with mapped direction is oracle-only; libm vs numpy pow/log/sqrt to tolerance."),
+        note=NOTE_COMMON + "overhang_sens_is_backprop: the coded reverse loop returns J^T seed of the layer recursion, and overhang_response_hasDerivAt makes J the genuine derivative over R (eps > 0); the older _partial statement is kept beside it. Equivariance holds for EVERY permutation of the domain axes with the direction mapped (overhang_relabel, overhang_axis_permutation, overhang_axis_swap_cross(_xy/_xz/_yz)), also at constructor level for axis directions (overhang_prepare_axis(_str), overhang_axis_permutation_prepared). libm vs numpy pow/log/sqrt to tolerance; non-axis direction vectors (accepted by the code because its alignment assertion is vacuous) are outside the property."),
     "C09": dict(
         text="Lean theorems (3-D statements, 2-D = nelz 0; arbitrary sizes, kernels, pad widths): closed forms of np.pad symmetric/edge/wrap; _process_padding is the per-axis extension; FilterConv output = sum w[a,b,c] x~[i+px-a, ...] "
              "with x~ the field extended by the selected rule (+overrides); constants and range preserved for non-negative sum-one kernels without constant padding (both filters); every radius kernel is non-negative, "
